@@ -1006,6 +1006,8 @@ namespace
                     }
                     T["neg"] = neg;
                     T["core"] = refOf(E);
+                    // declarations referenced by the part of the condition this block actually evaluates
+                    T["leafrefs"] = refsOf(E);
                     if (auto* BO = dyn_cast<BinaryOperator>(E))
                     {
                         if (BO->isComparisonOp())
